@@ -171,7 +171,8 @@ def main(argv):
         path = os.path.join(rdir, '%s.json' % h)
         with open(path, 'w') as f:
             json.dump({'property': pid, 'key': key, 'seed': seed, 'tier': tier,
-                       'case': v.get('case'), 'what': v.get('what'), 'detail': v.get('detail'),
+                       'case': v.get('case'), 'shard': v.get('shard'), 'nshards': v.get('nshards'),
+                       'what': v.get('what'), 'detail': v.get('detail'),
                        'count': len(by_key[key])}, f, indent=1, default=str)
         lines.append('VIOLATION property=%s replay=%s key=%s :: %s' % (pid, path, key, v.get('what')))
     seen_known = set()
